@@ -120,6 +120,17 @@ CLAIMS['C02'] = dict(
          'real float code (1e-4). Inconclusive paths (Logit edges, LogSinh) are counted in the evidence.',
     technique=TECH_B, engine='pysym', ref='DESIGN.md section 3, C02')
 
+CLAIMS['C12'] = dict(
+    text='Inductive step over the real Vector code: from an arbitrary valid state (symbolic bounds, defaults, values, NaN where allowed, every flag '
+         'combination) ONE operation with symbolic arguments is executed and z3 decides on every path that values stay within bounds, NaN only if '
+         'allowed, rejected assignments leave all observables unchanged, names/bounds/defaults are unchanged and not aliased, the hit flag is raised '
+         'iff the assignment was clipped, and clone / to_dict->from_dict reproduce the full observable state incl. flags; the post-conditions '
+         're-establish the invariant, so histories of any length are covered. Read-only uses of the 13 transforms leave params, constants and bounds unchanged.',
+    note='Bounds: 1 name (2 thorough), finite symbolic or infinite bounds, |values| <= 1000, assigned values >= 1e-6 from a bound or on it. A counterexample '
+         'from a pre-state no history reaches would mean the invariant is too weak (to be strengthened, not reported). latin-hypercube sampler and RNG '
+         'stubbed by arbitrary values of their range on the symbolic path.',
+    technique=TECH_B, engine='pysym', ref='DESIGN.md section 3, C12')
+
 PENDING = 'check not built yet in this session (planned, see DESIGN.md section 3)'
 NOT_APPLICABLE = {
     'C13': 'persistence is carried by numpy tofile/fromfile, dtype objects, zipfile and float repr: no arithmetic core a solver can be given; '
